@@ -191,6 +191,7 @@ func c09(x *runCtx) {
 		}
 	}
 	x.r.Extra["valid_tuples_run"] = valid
+	c09HandlerLimit(x)
 }
 
 // expectedValid: what the library's own tables say (tied to the specification in Lean).
